@@ -9,7 +9,7 @@ import re
 
 from vlib import Case
 
-KINDS = ['ts', 'tss', 'tsd']
+KINDS = ['ts', 'tss', 'tsd', 'tsdn']
 BIND_OPS = ('bind', 'bindS', 'rebind', 'rebindS')
 STRICT_LMT = os.environ.get('HGV_C04_STRICT_LMT', '') == '1'
 
@@ -84,7 +84,10 @@ def gen_bind(rng, idx, maxops):
     p_rebind = {'late-sampled': 0.08, 'late-plain': 0.08, 'rebind': 0.4, 'mixed': 0.2, 'quiet': 0.1, 'same-cycle': 0.3}[profile]
     p_o1 = rng.choice([0.0, 0.25, 0.5])          # how often the second output is written (0: it stays not-yet-valid)
     n_ops = 0
+    kfree = list(range(k)) if kind == 'tsd' else []     # key-set inputs (TSS inputs bound to a dictionary's key set)
     while n_ops < maxops:
+        if kfree and rng.random() < 0.3:
+            lines.append('bindK %d %d %d' % (kfree.pop(0), rng.choice([0, 0, 1]), t))
         # ---- one cycle at time t: producer operations and (re)binds in a random order
         acts = []
         for _ in range(rng.choice([0, 0, 1, 1, 2, 3] if profile != 'quiet' else [0, 0, 0, 1, 1, 2])):
@@ -139,8 +142,169 @@ def gen_bind(rng, idx, maxops):
     return Case(lines, {'profile': 'bind:' + profile})
 
 
+def gen_keyset(rng, idx, maxops):
+    """dictionaries whose FIRST write changes no membership (bare touch, empty delta, empty whole value), quiet cycles, then a
+    key insert; controls whose first write carries keys; key-set inputs bound at the start or later; nested dictionaries"""
+    nested = rng.random() < 0.3
+    kind = 'tsdn' if nested else 'tsd'
+    k = rng.choice([1, 2, 2, 3])
+    t = rng.randint(1, 3)
+    lines = ['case %d' % idx, 'schema %s %d' % (kind, k)]
+    kfree = list(range(k))
+    dfree = list(range(k)) if not nested else []
+    live = [set(), set()]
+    inner_live = [{}, {}]
+    dom = [1, 2, 3, 4]
+
+    def first_write(o):
+        r = rng.random()
+        if nested:
+            k1 = rng.choice(dom)
+            kindw = rng.choice(['ntouch', 'nempty', 'nset', 'touch', 'empty', 'clear'])
+            if kindw in ('touch', 'empty', 'clear'):
+                return ['%s %d %d' % (kindw, o, t)]
+            live[o].add(k1)
+            inner_live[o].setdefault(k1, set())
+            if kindw == 'nset':
+                k2 = rng.choice(dom)
+                inner_live[o][k1].add(k2)
+                return ['nset %d %d %d %d %d' % (o, t, k1, k2, rng.randint(0, 99))]
+            return ['%s %d %d %d' % (kindw, o, t, k1)]
+        if r < 0.2:
+            return ['touch %d %d' % (o, t)]
+        if r < 0.4:
+            return ['empty %d %d' % (o, t)]
+        if r < 0.55:
+            return ['setall %d %d -' % (o, t)]
+        if r < 0.7:
+            return ['clear %d %d' % (o, t)]
+        if r < 0.8:
+            key = rng.choice(dom)
+            live[o].add(key)
+            return ['set %d %d %d %d' % (o, t, key, rng.randint(0, 99))]
+        if r < 0.88:
+            keys = rng.sample(dom, rng.choice([1, 2]))
+            live[o] = set(keys)
+            return ['setall %d %d %s' % (o, t, ','.join('%d:%d' % (x, rng.randint(0, 99)) for x in keys))]
+        return ['del %d %d %d' % (o, t, rng.choice(dom))]        # an erase of an absent key as the first write
+
+    def later_write(o, erased):
+        r = rng.random()
+        if nested:
+            if live[o] and r < 0.12:
+                cand = sorted(live[o])
+                k1 = rng.choice(cand)
+                live[o].discard(k1)
+                inner_live[o].pop(k1, None)
+                erased.add(k1)
+                return 'del %d %d %d' % (o, t, k1)
+            if r < 0.17:
+                return '%s %d %d' % (rng.choice(['touch', 'empty']), o, t)
+            if r < 0.2:
+                erased |= live[o]
+                live[o].clear()
+                inner_live[o].clear()
+                return 'clear %d %d' % (o, t)
+            cand = [x for x in dom if x not in erased]
+            if not cand:
+                return 'touch %d %d' % (o, t)
+            k1 = rng.choice(sorted(live[o]) if (live[o] and rng.random() < 0.6) else cand)
+            if k1 in erased:
+                return 'touch %d %d' % (o, t)
+            if r < 0.45 and k1 in live[o]:
+                k2 = rng.choice(sorted(inner_live[o][k1]) if (inner_live[o].get(k1) and rng.random() < 0.7) else dom)
+                inner_live[o].setdefault(k1, set()).discard(k2)
+                return 'ndel %d %d %d %d' % (o, t, k1, k2)
+            live[o].add(k1)
+            inner_live[o].setdefault(k1, set())
+            if r < 0.65:
+                return '%s %d %d %d' % (rng.choice(['ntouch', 'nempty']), o, t, k1)
+            k2 = rng.choice(dom)
+            inner_live[o][k1].add(k2)
+            return 'nset %d %d %d %d %d' % (o, t, k1, k2, rng.randint(0, 99))
+        if r < 0.12:
+            return 'touch %d %d' % (o, t)
+        if r < 0.24:
+            return 'empty %d %d' % (o, t)
+        if r < 0.3:
+            live[o].clear()
+            return 'clear %d %d' % (o, t)
+        if r < 0.4:
+            keys = rng.sample(dom, rng.choice([0, 0, 1, 2]))
+            if rng.random() < 0.4:
+                keys = sorted(live[o])                       # the same membership: a value-only whole-value write
+            live[o] = set(keys)
+            return 'setall %d %d %s' % (o, t, ','.join('%d:%d' % (x, rng.randint(0, 99)) for x in keys) or '-')
+        if live[o] and r < 0.6:
+            key = rng.choice(sorted(live[o]))
+            live[o].discard(key)
+            return 'del %d %d %d' % (o, t, key)
+        if live[o] and r < 0.8:
+            return 'set %d %d %d %d' % (o, t, rng.choice(sorted(live[o])), rng.randint(0, 99))   # value-only
+        key = rng.choice(dom)
+        live[o].add(key)
+        return 'set %d %d %d %d' % (o, t, key, rng.randint(0, 99))
+
+    def maybe_bind():
+        out = []
+        if kfree and rng.random() < 0.6:
+            out.append('bindK %d %d %d' % (kfree.pop(0), rng.choice([0, 0, 0, 1]), t))
+        if dfree and rng.random() < 0.25:
+            out.append('%s %d %d %d' % (rng.choice(['bind', 'bindS']), dfree.pop(0), rng.choice([0, 0, 1]), t))
+        return out
+
+    lines += maybe_bind()
+    written = [False, False]
+    n_ops = 0
+    while n_ops < maxops:
+        erased = [set(), set()]
+        for _ in range(rng.choice([0, 1, 1, 2, 3]) if any(written) else 1):
+            o = 0 if rng.random() < 0.75 else 1
+            if not written[o]:
+                lines += first_write(o)
+                written[o] = True
+            else:
+                lines.append(later_write(o, erased[o]))
+            n_ops += 1
+            if rng.random() < 0.15:
+                lines.append('dump %d' % t)
+        lines += maybe_bind()
+        lines.append('dump %d' % t)
+        for _ in range(rng.choice([1, 1, 2, 3])):          # quiet cycles: the key set stays valid, unmodified
+            t += rng.choice([1, 1, 2, 5])
+            if rng.random() < 0.2:
+                lines += maybe_bind()
+            lines.append('dump %d' % t)
+        t += rng.choice([1, 1, 2])
+    lines.append('dump %d' % t)
+    return Case(lines, {'profile': 'bind:keyset-' + ('nested' if nested else 'flat')})
+
+
+def exhaustive_keyset(start):
+    """every history of 3 steps over {touch, empty delta, empty whole value, clear, set 1, erase 1, erase of an absent key} on one
+    dictionary, each in the current cycle or a new one, a key-set input bound before the first write, a dump after
+    every step and one quiet dump"""
+    import itertools
+    alphabet = ['touch 0 %d', 'empty 0 %d', 'setall 0 %d -', 'clear 0 %d', 'set 0 %d 1 10', 'del 0 %d 1', 'del 0 %d 9']
+    steps = [(a, new) for a in alphabet for new in (False, True)]
+    cases, idx = [], start
+    for seq in itertools.product(steps, repeat=3):
+        if not seq[0][1]:
+            continue
+        t = 0
+        lines = ['case %d' % idx, 'schema tsd 1', 'bindK 0 0 1']
+        for a, new in seq:
+            if new:
+                t += 1
+            lines += [a % t, 'dump %d' % t]
+        lines.append('dump %d' % (t + 1))
+        cases.append(Case(lines, {'profile': 'bind:keyset-exhaustive'}))
+        idx += 1
+    return cases
+
+
 def gen_bind_malformed(rng, idx):
-    kind = rng.choice(KINDS)
+    kind = rng.choice(KINDS[:3])
     first = {'ts': 'w 0 1 5', 'tss': 'add 0 1 5', 'tsd': 'set 0 1 5 50'}[kind]
     lines = ['case %d' % idx, 'schema %s 2' % kind, first, 'bindS 0 0 2', 'dump 2']
     bad = ['bind 0 0 3', 'rebind 1 0 3', 'unbind 1 3', 'bindS 2 0 3', 'bindS 1 2 3', 'bindS 1 0 0', 'dump 0', 'dump', 'w 0 3',
@@ -225,10 +389,71 @@ def _ints(text):
     return [int(x) for x in text.split(',')] if text else []
 
 
+_RE_KSUF = re.compile(r'^(.*)/K' + _FL + r'/\+\[([^\]]*)\]/-\[([^\]]*)\]$')
+_RE_NTAIL = re.compile(r'^' + _FL + r'/\[(.*)\]/~\[([^\]]*)\]/\+\[([^\]]*)\]/-\[([^\]]*)\]$')
+_RE_NKID = re.compile(r'^(-?\d+)=' + _FL + r'/K' + _FL + r'/\[([^\]]*)\]$')
+
+
+def _split_top(text):
+    """split at commas that are not inside brackets"""
+    out, depth, cur = [], 0, ''
+    for ch in text:
+        if ch == '[':
+            depth += 1
+        elif ch == ']':
+            depth -= 1
+        if ch == ',' and depth == 0:
+            out.append(cur)
+            cur = ''
+        else:
+            cur += ch
+    if cur:
+        out.append(cur)
+    return out
+
+
+class KeySetView:
+    """the key-set endpoint of a dictionary output: valid, modified, lmt, added, removed"""
+    def __init__(self, valid, modified, lmt, added, removed):
+        self.valid, self.modified, self.lmt, self.added, self.removed = valid, modified, lmt, added, removed
+
+    def flags(self):
+        return (self.valid, self.modified, self.lmt)
+
+
 class View:
-    """valid, modified, lmt, value (ts: str; tss: sorted list; tsd: {key: (valid, modified, lmt, value)}), added, removed, mkeys"""
-    def __init__(self, kind, body):
+    """valid, modified, lmt, value (ts: str; tss: sorted list; tsd: {key: (valid, modified, lmt, value)}), added, removed, mkeys;
+    a dictionary PRODUCER also has .keyset (KeySetView); a nested producer has .inner = {k1: (View-like flags, KeySetView, {k2: child})}"""
+    def __init__(self, kind, body, producer=False):
         self.added, self.removed, self.mkeys, self.kids = [], [], [], {}
+        self.keyset, self.inner = None, {}
+        if kind in ('tsd', 'tsdn') and producer:
+            km = _RE_KSUF.match(body)
+            if not km:
+                raise ValueError('no key-set endpoint in the dictionary view %r' % body[:60])
+            body = km.group(1)
+            self.keyset = KeySetView(int(km.group(2)), int(km.group(3)), int(km.group(4)), _ints(km.group(5)), _ints(km.group(6)))
+        if kind == 'tsdn':
+            m = _RE_NTAIL.match(body)
+            if not m:
+                raise ValueError('unreadable nested view %r' % body[:60])
+            for item in _split_top(m.group(4)):
+                nm = _RE_NKID.match(item)
+                if not nm:
+                    raise ValueError('unreadable nested child %r' % item)
+                gk = {}
+                for g in (nm.group(8).split(',') if nm.group(8) else []):
+                    gm = _RE_KID.match(g)
+                    if not gm:
+                        raise ValueError('unreadable grandchild %r' % g)
+                    gk[int(gm.group(1))] = (int(gm.group(2)), int(gm.group(3)), int(gm.group(4)), gm.group(5))
+                k1 = int(nm.group(1))
+                self.kids[k1] = (int(nm.group(2)), int(nm.group(3)), int(nm.group(4)), '-')
+                self.inner[k1] = (KeySetView(int(nm.group(5)), int(nm.group(6)), int(nm.group(7)), [], []), gk)
+            self.value = sorted(self.kids)
+            self.mkeys, self.added, self.removed = _ints(m.group(5)), _ints(m.group(6)), _ints(m.group(7))
+            self.valid, self.modified, self.lmt = int(m.group(1)), int(m.group(2)), int(m.group(3))
+            return
         if kind == 'ts':
             m = _RE_TS.match(body)
             if not m:
@@ -261,6 +486,34 @@ class View:
         return (self.value, sorted((k, c[0], c[2], c[3]) for k, c in self.kids.items()))
 
 
+class DictRef:
+    """what the write history implies for a dictionary and its key-set endpoint: the key set is written exactly when the
+    dictionary is written and (the membership changes or the key set has never been valid) - whatever the write is: a key
+    insert, a bare touch, an empty delta, an empty whole value, an erase of an absent key, a clear"""
+    def __init__(self):
+        self.keys, self.dvalid, self.dlmt, self.kvalid, self.klmt = set(), False, 0, False, 0
+        self.first_write_kind = None
+
+    def write(self, t, changed, kind):
+        if not self.dvalid:
+            self.first_write_kind = kind
+        self.dvalid, self.dlmt = True, t
+        if changed or not self.kvalid:
+            self.kvalid, self.klmt = True, t
+
+    def set(self, t, key):
+        ch = key not in self.keys
+        self.keys.add(key)
+        self.write(t, ch, 'key')
+        return ch
+
+    def erase(self, t, key):
+        ch = key in self.keys
+        self.keys.discard(key)
+        self.write(t, ch, 'erase' if ch else 'blind-erase')
+        return ch
+
+
 def mon_bind(case, out):
     res = Res()
     if len(out) != len(case.lines):
@@ -277,6 +530,10 @@ def mon_bind(case, out):
     last_op = [0, 0]         # per output: time of the last mutation call (every one of them ticks)
     n_ops = [0, 0]
     last_t = 0
+    ktarget, kbind = [], []  # key-set inputs: output index or None, bind time
+    ref = [DictRef(), DictRef()]          # tsd / tsdn: the dictionaries (outer ones for tsdn)
+    inner = [{}, {}]                      # tsdn: outer key -> DictRef of the inner dictionary
+    erased_now = [set(), set()]           # tsdn: outer keys erased at last_t (a re-creation in the same cycle is not judged)
     tnat = lambda s: s.isdigit() and len(s) <= 15 and int(s) > 0
     isint = lambda s: re.match(r'^-?\d{1,15}$', s) is not None
 
@@ -301,6 +558,8 @@ def mon_bind(case, out):
             if w[1] in KINDS and w[2] in ('1', '2', '3'):
                 kind, k = w[1], int(w[2])
                 target, binds, last_op, n_ops, last_t = [None] * k, [[] for _ in range(k)], [0, 0], [0, 0], 0
+                ktarget, kbind = [None] * k, [0] * k
+                ref, inner, erased_now = [DictRef(), DictRef()], [{}, {}], [set(), set()]
                 if o != 'ok':
                     bad('trace', 'schema answered %r' % o)
                 res.feats.add('schema:' + kind)
@@ -312,7 +571,7 @@ def mon_bind(case, out):
             if o != 'bad-op':
                 bad('trace', 'op before schema answered %r' % o)
             continue
-        if op in BIND_OPS and len(w) == 4 and w[1].isdigit() and w[2] in ('0', '1') and tnat(w[3]) and int(w[1]) < k \
+        if op in BIND_OPS and kind != 'tsdn' and len(w) == 4 and w[1].isdigit() and w[2] in ('0', '1') and tnat(w[3]) and int(w[1]) < k \
                 and (target[int(w[1])] is not None) == op.startswith('r'):
             i, oo, t = int(w[1]), int(w[2]), int(w[3])
             if o != 'ok':
@@ -331,7 +590,19 @@ def mon_bind(case, out):
             target[i] = oo
             binds[i].append((op, t))
             continue
-        if op == 'unbind' and len(w) == 3 and w[1].isdigit() and tnat(w[2]) and int(w[1]) < k and target[int(w[1])] is not None:
+        if op == 'bindK' and kind in ('tsd', 'tsdn') and len(w) == 4 and w[1].isdigit() and w[2] in ('0', '1') and tnat(w[3]) \
+                and int(w[1]) < k and ktarget[int(w[1])] is None:
+            i, oo, t = int(w[1]), int(w[2]), int(w[3])
+            if o != 'ok':
+                bad('trace', '%r answered %r' % (ln, o))
+                continue
+            if not advance(t):
+                return res
+            res.feats.add('bindK:%s:%s' % ('late' if (ref[0].dvalid or ref[1].dvalid) else 'at-start',
+                                           'keyset-valid' if ref[oo].kvalid else 'keyset-not-yet-valid'))
+            ktarget[i], kbind[i] = oo, t
+            continue
+        if op == 'unbind' and kind != 'tsdn' and len(w) == 3 and w[1].isdigit() and tnat(w[2]) and int(w[1]) < k and target[int(w[1])] is not None:
             i, t = int(w[1]), int(w[2])
             if o != 'ok':
                 bad('trace', '%r answered %r' % (ln, o))
@@ -351,6 +622,117 @@ def mon_bind(case, out):
             mut = (int(w[1]), int(w[2]), ('ok',))
         elif kind == 'tsd' and op == 'del' and len(w) == 4 and w[1] in ('0', '1') and tnat(w[2]) and isint(w[3]):
             mut = (int(w[1]), int(w[2]), ('0', '1'))
+        dmut = None
+        o01 = lambda x: x in ('0', '1')
+        if kind == 'tsd' and op in ('set', 'del') and mut is not None:
+            dmut, mut = (op, int(w[1]), int(w[2])), None
+        elif kind in ('tsd', 'tsdn') and op in ('touch', 'empty', 'clear') and len(w) == 3 and o01(w[1]) and tnat(w[2]):
+            dmut = (op, int(w[1]), int(w[2]))
+        elif kind == 'tsd' and op == 'setall' and len(w) == 4 and o01(w[1]) and tnat(w[2]) and \
+                (w[3] == '-' or (re.match(r'^-?\d{1,15}:-?\d{1,15}(,-?\d{1,15}:-?\d{1,15})*$', w[3])
+                                 and len({x.split(':')[0] for x in w[3].split(',')}) == len(w[3].split(',')))):
+            dmut = (op, int(w[1]), int(w[2]))
+        elif kind == 'tsdn' and op == 'del' and len(w) == 4 and o01(w[1]) and tnat(w[2]) and isint(w[3]):
+            dmut = (op, int(w[1]), int(w[2]))
+        elif kind == 'tsdn' and op in ('ntouch', 'nempty') and len(w) == 4 and o01(w[1]) and tnat(w[2]) and isint(w[3]):
+            dmut = (op, int(w[1]), int(w[2]))
+        elif kind == 'tsdn' and op == 'ndel' and len(w) == 5 and o01(w[1]) and tnat(w[2]) and isint(w[3]) and isint(w[4]):
+            dmut = (op, int(w[1]), int(w[2]))
+        elif kind == 'tsdn' and op == 'nset' and len(w) == 6 and o01(w[1]) and tnat(w[2]) and all(isint(x) for x in w[3:6]):
+            dmut = (op, int(w[1]), int(w[2]))
+        if dmut is not None:
+            op_, oo, t = dmut
+            if t > last_t:
+                erased_now = [set(), set()]
+            if not advance(t):
+                return res
+            r = ref[oo]
+            before = (r.dlmt, r.klmt)
+            expect = 'ok'
+
+            def outer_at(k1):
+                if k1 in erased_now[oo]:
+                    res.feats.add('nested-key-recreated-in-its-erase-cycle')
+                    return False
+                if k1 not in r.keys:
+                    r.set(t, k1)
+                    inner[oo][k1] = DictRef()
+                return True
+
+            def inner_wrote(d_before, inn):
+                if inn.dlmt != d_before:
+                    r.write(t, False, 'child')
+
+            if op_ == 'set':
+                r.set(t, int(w[3]))
+            elif op_ == 'del' and kind == 'tsd':
+                expect = '1' if r.erase(t, int(w[3])) else '0'
+            elif op_ == 'del':
+                k1 = int(w[3])
+                expect = '1' if r.erase(t, k1) else '0'
+                if expect == '1':
+                    inner[oo].pop(k1, None)
+                    erased_now[oo].add(k1)
+            elif op_ == 'touch':
+                r.write(t, False, 'touch')
+            elif op_ == 'clear':
+                ch = bool(r.keys)
+                if kind == 'tsdn':
+                    erased_now[oo] |= r.keys
+                    inner[oo].clear()
+                r.keys = set()
+                r.write(t, ch, 'clear')
+            elif op_ == 'empty':
+                if not r.dvalid:
+                    r.write(t, False, 'empty-delta')
+                else:
+                    res.feats.add('empty-delta-on-a-valid-dictionary')
+            elif op_ == 'setall':
+                new = set() if w[3] == '-' else {int(x.split(':')[0]) for x in w[3].split(',')}
+                expect = '1' if r.dlmt != t else '0'
+                ch = new != r.keys
+                r.keys = set(new)
+                r.write(t, ch, 'whole-value-empty' if not new else 'whole-value')
+            elif op_ in ('ntouch', 'nempty', 'nset'):
+                k1 = int(w[3])
+                if not outer_at(k1):
+                    return res
+                inn = inner[oo][k1]
+                d0 = inn.dlmt
+                if op_ == 'ntouch':
+                    inn.write(t, False, 'touch')
+                elif op_ == 'nempty':
+                    if not inn.dvalid:
+                        inn.write(t, False, 'empty-delta')
+                else:
+                    inn.set(t, int(w[4]))
+                if d0 == 0 and inn.dlmt:
+                    res.feats.add('inner-dict-first-write:' + inn.first_write_kind)
+                inner_wrote(d0, inn)
+            elif op_ == 'ndel':
+                k1 = int(w[3])
+                if k1 not in r.keys:
+                    expect = '-'
+                else:
+                    inn = inner[oo][k1]
+                    d0 = inn.dlmt
+                    expect = '1' if inn.erase(t, int(w[4])) else '0'
+                    inner_wrote(d0, inn)
+            if o != expect:
+                bad('trace', '%r answered %r, the write history says %r' % (ln, o, expect))
+                continue
+            res.feats.add('dict-op:' + op_)
+            if r.first_write_kind and before[0] == 0 and r.dlmt:
+                res.feats.add('dict-first-write:' + r.first_write_kind)
+            if r.dlmt == t and before[0] != t or (r.dlmt == t and r.klmt != t):
+                res.feats.add('dict-write:%s' % ('keyset-stamped' if r.klmt == t and before[1] != t else
+                                                 'keyset-already-stamped' if r.klmt == t else 'membership-neutral'))
+            for i in range(k):
+                if target[i] == oo and binds[i] and binds[i][-1][1] == t and r.dlmt == t:
+                    res.feats.add('tick-after-%s-in-the-same-cycle' % binds[i][-1][0])
+            last_op[oo] = r.dlmt
+            n_ops[oo] = 1 if r.dvalid else 0
+            continue
         if mut is not None:
             oo, t, answers = mut
             if o not in answers:
@@ -371,7 +753,8 @@ def mon_bind(case, out):
             if not advance(t):
                 return res
             parts = o.split(' | ')
-            if len(parts) != 2 + k:
+            nk = k if kind in ('tsd', 'tsdn') else 0
+            if len(parts) != 2 + k + nk:
                 bad('trace', 'dump answered %r' % o[:80])
                 continue
             try:
@@ -380,7 +763,7 @@ def mon_bind(case, out):
                     head = 'o%d: ' % oo
                     if not parts[oo].startswith(head):
                         raise ValueError('producer part %r' % parts[oo][:40])
-                    prod.append(View(kind, parts[oo][len(head):]))
+                    prod.append(View(kind, parts[oo][len(head):], producer=True))
                 cons = []
                 for i in range(k):
                     m = re.match(r'^i%d>(-|\d): (.*)$' % i, parts[2 + i])
@@ -395,6 +778,20 @@ def mon_bind(case, out):
                         cons.append((int(u.group(1)), int(u.group(2)), int(u.group(3))))
                     else:
                         cons.append(View(kind, m.group(2)))
+                kcons = []
+                for i in range(nk):
+                    m = re.match(r'^k%d>(-|\d): (.*)$' % i, parts[2 + k + i])
+                    if not m:
+                        raise ValueError('key-set consumer part %r' % parts[2 + k + i][:40])
+                    if (m.group(1) == '-') != (ktarget[i] is None) or (ktarget[i] is not None and int(m.group(1)) != ktarget[i]):
+                        raise ValueError('key-set input %d reported on %s, the op list binds it to %s' % (i, m.group(1), ktarget[i]))
+                    if ktarget[i] is None:
+                        u = _RE_UNB.match(m.group(2))
+                        if not u:
+                            raise ValueError('unbound key-set input part %r' % m.group(2)[:40])
+                        kcons.append((int(u.group(1)), int(u.group(2)), int(u.group(3))))
+                    else:
+                        kcons.append(View('tss', m.group(2)))
             except ValueError as e:
                 bad('trace', str(e))
                 continue
@@ -411,6 +808,71 @@ def mon_bind(case, out):
                 for key, c in p.kids.items():
                     if c[1] != (1 if c[2] == t else 0) or c[2] > p.lmt or (c[1] and not p.modified):
                         bad('producer', 'child %d of %s reads %s under a parent with modified=%d lmt=%d' % (key, where, c, p.modified, p.lmt))
+            # ---- the key-set endpoint of every dictionary (also of the inner ones) against the write history
+            def check_keyset(what, dflags, ks, r, keys_read):
+                """dflags = (valid, modified, lmt) of the dictionary, ks = its KeySetView, r = DictRef"""
+                exp = (1 if r.kvalid else 0, 1 if (r.kvalid and r.klmt == t) else 0, r.klmt)
+                if sorted(keys_read) != sorted(r.keys):
+                    bad('producer', 'the keys of %s are %s, the write history says %s' % (what, sorted(keys_read), sorted(r.keys)))
+                if ks.flags() != exp:
+                    why = ('the dictionary is valid since its first write (%s) and the key set of a valid dictionary is valid'
+                           % r.first_write_kind if (r.kvalid and not ks.valid) else
+                           'the key set is written exactly when the membership changes or with the dictionary\'s first write')
+                    bad('keyset', 'the KEY-SET endpoint of %s at t=%d reads valid=%d modified=%d lmt=%d, the write history says '
+                                  'valid=%d modified=%d lmt=%d (%s; the dictionary itself reads valid=%d modified=%d lmt=%d)'
+                        % ((what, t) + ks.flags() + exp + (why,) + tuple(dflags)))
+                if ks.lmt > dflags[2] or (ks.modified and not dflags[1]) or (ks.valid and not dflags[0]):
+                    bad('keyset', 'the KEY-SET endpoint of %s at t=%d reads %s above its dictionary %s' % (what, t, ks.flags(), tuple(dflags)))
+                if not ks.modified and (ks.added or ks.removed):
+                    bad('keyset', 'the KEY-SET endpoint of %s reads a delta in a cycle in which it is not modified: +%s -%s'
+                        % (what, ks.added, ks.removed))
+                if dflags[0] and not ks.valid:
+                    bad('keyset', 'the KEY-SET endpoint of %s is not valid at t=%d although the dictionary is (first write: %s)'
+                        % (what, t, r.first_write_kind))
+                if ks.valid and not ks.modified and dflags[1]:
+                    res.feats.add('observation:dict-modified-keyset-not')
+                if r.first_write_kind in ('touch', 'empty-delta', 'whole-value-empty', 'blind-erase', 'clear') and r.kvalid:
+                    res.feats.add('observation:keyset-after-%s-first-write:%s' % (
+                        r.first_write_kind, 'first-cycle' if r.dlmt == t and not r.keys and r.klmt == t else
+                        'later-quiet-cycle' if r.dlmt != t else 'later-write-cycle'))
+                    if not r.keys and r.dlmt != t:
+                        res.nontrivial = True
+
+            if kind in ('tsd', 'tsdn'):
+                for oo, p in enumerate(prod):
+                    check_keyset('output %d' % oo, (p.valid, p.modified, p.lmt), p.keyset, ref[oo], p.value)
+                    if p.keyset.modified and (sorted(p.keyset.added) != sorted(p.added) or sorted(p.keyset.removed) != sorted(p.removed)):
+                        bad('keyset', 'the KEY-SET endpoint of output %d at t=%d reads the delta +%s -%s, the dictionary +%s -%s'
+                            % (oo, t, p.keyset.added, p.keyset.removed, p.added, p.removed))
+                    if kind == 'tsdn':
+                        for k1, (iks, gk) in p.inner.items():
+                            inn = inner[oo].get(k1)
+                            if inn is None:
+                                bad('producer', 'output %d lists the key %d that the write history does not know' % (oo, k1))
+                                continue
+                            iflags = p.kids[k1][:3]
+                            exp_i = (1 if inn.dvalid else 0, 1 if inn.dlmt == t and inn.dvalid else 0, inn.dlmt)
+                            if tuple(iflags) != exp_i:
+                                bad('producer', 'the inner dictionary %d of output %d at t=%d reads %s, the write history says %s'
+                                    % (k1, oo, t, tuple(iflags), exp_i))
+                            check_keyset('the inner dictionary %d of output %d' % (k1, oo), iflags, iks, inn, list(gk))
+                            res.feats.add('observation:inner-dictionary')
+                # every key-set consumer against the producer's key-set endpoint: a plainly bound fresh TSS input
+                for i in range(nk):
+                    c = kcons[i]
+                    if ktarget[i] is None:
+                        if c != (0, 0, 0):
+                            bad('keyset-io', 'the never-bound key-set input %d reads %s' % (i, c))
+                        continue
+                    p = prod[ktarget[i]]
+                    ks = p.keyset
+                    got = (c.valid, c.modified, c.lmt, sorted(c.value), sorted(c.added), sorted(c.removed))
+                    exp = (ks.valid, ks.modified, ks.lmt, sorted(p.value), sorted(ks.added), sorted(ks.removed))
+                    if got != exp:
+                        bad('keyset-io', 'a TSS input bound to the key set reads differently from the key-set endpoint: key-set input %d '
+                                         '(bound to the key set of output %d at %d) at t=%d reads (valid, modified, lmt, keys, added, '
+                                         'removed) = %s, the producer %s' % (i, ktarget[i], kbind[i], t, got, exp))
+                    res.feats.add('observation:keyset-consumer:%s' % ('modified' if c.modified else 'valid' if c.valid else 'not-valid'))
             # ---- every consumer against its producer
             for i in range(k):
                 c = cons[i]
@@ -533,8 +995,10 @@ def valid_case(case, impl_out, model_out):
         try:
             if w[0] in BIND_OPS:
                 t = int(w[3])
-            elif w[0] in ('w', 'add', 'rem', 'set', 'del', 'unbind'):
+            elif w[0] in ('w', 'add', 'rem', 'set', 'del', 'unbind', 'touch', 'empty', 'clear', 'setall', 'nset', 'ntouch', 'nempty', 'ndel'):
                 t = int(w[2])
+            elif w[0] == 'bindK':
+                t = int(w[3])
             elif w[0] == 'dump':
                 t = int(w[1])
             else:
